@@ -10,10 +10,14 @@ def arena_ref(mut=True):
 
 
 def arg_id(st, nid):
-    """NodeId value a caller may hold for individual nid under V: current id if live, last issued id if removed."""
+    """NodeId value a caller may hold for individual nid under V: the current id if live; for a removed, not yet recycled slot either the
+    last id that was issued for it (stamp >= 0, differs from the slot's stamp) or - form "reported" - the id that get_node_id(&arena[..])
+    reports for the removed slot (it carries the slot's current, negative stamp)."""
     r = st.nodes[nid]
     if r.live0:
         return st.id_of(nid)
+    if st.meta.get("removed_id_form", {}).get(nid) == "reported":
+        return VStruct(NODEID, (("index1", VNonZero(Lin(1, ("idx", nid), 1))), ("stamp", r.h0["stamp"])))
     sym = ("ast", nid)
     st.bounds[sym] = (0, I16_MAX)
     return VStruct(NODEID, (("index1", VNonZero(Lin(1, ("idx", nid), 1))),
